@@ -7,6 +7,7 @@ from fdlstatic import cfg as cfg_lib
 from fdlstatic import idmemo
 from fdlstatic.ctx import Ctx, kwarg
 from fdlstatic.model import AnalysisError, unparse, walk_function, walk_stmts
+from fdlstatic import roles
 from fdlstatic.report import RuleSet
 from fdlstatic.rules import c01
 
@@ -202,13 +203,16 @@ def run(ctx: Ctx, rs: RuleSet, tier: str):
              f'{apply.qualname}:cycle-key',
              f'cycle key is id({unparse(s.x)})', ctx.loc(apply, s.node))
   ok = False
+  def _on_stack(c):
+    return (isinstance(c, ast.Compare) and len(c.ops) == 1 and isinstance(
+        c.ops[0], ast.In) and isinstance(c.comparators[0], ast.Attribute) and
+            c.comparators[0].attr == '_cycle_start')
+
   for m in g.nodes():
-    if g.kind[m] == 'if' and any(
-        isinstance(c, ast.Compare) and isinstance(c.ops[0], ast.In) and
-        isinstance(c.comparators[0], ast.Attribute) and
-        c.comparators[0].attr == '_cycle_start'
-        for c in ast.walk(g.stmt[m].test)):
-      t_succ = [x for x, lab in g.succ[m] if lab == 'true']
+    lab_hit = roles.branch_when(g.stmt[m].test, _on_stack) if (
+        g.kind[m] == 'if') else None
+    if lab_hit is not None:
+      t_succ = [x for x, lab in g.succ[m] if lab == lab_hit]
       r = g.reach(t_succ, labels=cfg_lib.NO_EXC)
       # it must be tested before the entry is (re)set
       before = all(g.dominated_by(x, {m}, labels=cfg_lib.NO_EXC) for x in sets)
